@@ -67,7 +67,7 @@ fn variants(s: &Sprite, plan: &Plan, enc: &Encoded, t: &mut Tape) -> Vec<(&'stat
                 }
             }
             "tm_bits" => {
-                for val in [0u64, 8, 16, 31, 33, 64, 0xFFFF] {
+                for val in [0u64, 1, 4, 8, 12, 16, 24, 31, 33, 40, 48, 64, 128, 0xFFFF] {
                     v.push(("bits-per-tile", format!("@{}={}", f.off, val), patched(f, val)));
                 }
             }
